@@ -151,6 +151,7 @@ func TestC02(t *testing.T) {
 	r.Require("rejected.single-edit", 100)
 	r.Require("rejected.list-edit", 10)
 	r.Require("rejected.dishonest-prover", 5)
+	r.Require("rejected.torsion-edit", 20)
 	r.Require("rejected.options-mismatch", 3)
 	r.Require("genuine.accepted", 10)
 	r.Require("audit.keys", 3)
@@ -264,6 +265,14 @@ func runCircuit(r *vcore.Run, ops *cvapi.Ops, idx int) {
 			continue
 		}
 		c.expectReject("single-edit", e.Name, e.Obj.(plonk.Proof), g.pub)
+	}
+	// ---- every G1 element moved out of the prime-order subgroup by a small-order point
+	if te, ok := ops.Ext["PlonkTorsionEdits"].(func(any) []cvapi.Edit); ok {
+		for _, e := range te(g.proof) {
+			if e.Changed {
+				c.expectReject("torsion-edit", e.Name, e.Obj.(plonk.Proof), g.pub)
+			}
+		}
 	}
 	// ---- list edits
 	for _, e := range ops.PlonkListEdits(g.proof, donors) {
